@@ -25,6 +25,8 @@ func runC06(r *engine.Run) {
 	r.Rule("DOM-writekept", "a write or removal handed to a cache layer (TransactionCache.Set/Remove, BlockCache.Set/setValue/remove) is recorded in that layer's pending map on every feasible path to every return (a store under the key parameter), and these methods never delete from the pending map: a dropped tombstone lets an ancestor's value show through")
 	r.Rule("CAP-absence", "the ancestor walk reads a missing entry in a key's versions map as 'that block did not write the key'; every container installed as a versions map (provenance of the value handed to StateCache.cache.Add) therefore must not be a plain capacity-bounded LRU (whose eviction order is the recency of lookups, so an old entry can outlive newer ones) unless it observes its evictions (constructed with an eviction callback)")
 	r.Rule("CLONE-boundary", "see C07: every value a lookup hands out is a Clone() of the stored one - a caller that edits a looked-up value in place must not change what the ancestor block or a sibling fork returns")
+	r.Rule("RET-pair", "the two results of every lookup agree: each return of a Get method is the pair of the next layer's Get, (Clone() of an entry's data, true) or (nil, false)")
+	r.Rule("DOM-found", "the value returned by a lookup in a cache map (lru Get/Peek) is type-asserted only on paths where the lookup's found flag tested true (a miss is a nil interface; asserting it panics)")
 	r.NotDec = append(r.NotDec,
 		"hit ratio after LRU eviction (capacity arithmetic)", "equality with the block-tree oracle for every history")
 	whoReadOnly(r, "WHO-readonly")
@@ -35,6 +37,8 @@ func runC06(r *engine.Run) {
 	keySame(r)
 	domWriteKept(r, "DOM-writekept")
 	capAbsence(r, "CAP-absence")
+	retPair(r, "RET-pair")
+	domFound(r, "DOM-found")
 	cloneBoundary(r, "C06")
 	if commit := r.Fn("ORDER-publish", pkgSC, "StateCache", "commit"); commit != nil {
 		orderPublish(r, commit)
@@ -736,5 +740,188 @@ func capAbsence(r *engine.Run, rule string) {
 	}
 	if n < 1 {
 		r.Anchor(rule, fmt.Errorf("unresolved anchor: constructor of the per-key versions map"))
+	}
+}
+
+// retPair: the two results of a lookup agree. Every return of a Get method is
+// (a) the pair returned by the next layer's Get (both results of one call),
+// (b) (Clone() of an entry's data, true), or (c) (nil, false). A hit without a
+// value, a miss with one, or a found value reported as a miss-with-value are
+// all wrong answers.
+func retPair(r *engine.Run, rule string) {
+	n := 0
+	for _, m := range []struct{ recv string }{{"TransactionCache"}, {"BlockCache"}, {"StateCache"}, {"QueryBlockCache"}} {
+		f := r.Fn(rule, pkgSC, m.recv, "Get")
+		if f == nil {
+			continue
+		}
+		o := ord{}
+		for _, ret := range engine.Returns(f) {
+			if ret.Block().Comment == "recover" || len(ret.Results) != 2 {
+				continue
+			}
+			n++
+			v, okv := resultValue(ret, 0), resultValue(ret, 1)
+			why, bad := "", ""
+			ev, isEv := v.(*ssa.Extract)
+			eo, isEo := okv.(*ssa.Extract)
+			switch {
+			case isEv && isEo && ev.Tuple == eo.Tuple && ev.Index == 0 && eo.Index == 1:
+				if c, ok := ev.Tuple.(*ssa.Call); ok {
+					if _, isGet := engine.IsMethodCall(c, "Get"); isGet {
+						why = "returns both results of the next layer's Get"
+					}
+				}
+				if why == "" {
+					bad = "returns the results of something other than a Get of the next layer"
+				}
+			default:
+				oc, isConst := okv.(*ssa.Const)
+				if !isConst || oc.Value == nil {
+					bad = "the hit flag is neither a constant nor the next layer's"
+					break
+				}
+				hit := oc.Value.ExactString() == "true"
+				if hit {
+					if c, ok := v.(*ssa.Call); ok {
+						if _, isClone := engine.IsMethodCall(c, "Clone"); isClone {
+							why = "hit with a Clone() of the entry's data"
+						}
+					}
+					if why == "" {
+						bad = "reports a hit without returning a Clone() of an entry's data"
+					}
+				} else {
+					if nilConst(v) {
+						why = "miss with a nil value"
+					} else {
+						bad = "reports a miss together with a value"
+					}
+				}
+			}
+			r.Check(bad == "", rule, o.next(fn(f)+"|return"), r.P.Pos(ret.Pos()), why,
+				"the two results of the lookup do not agree: "+bad)
+		}
+	}
+	if n < 10 {
+		r.Anchor(rule, fmt.Errorf("unresolved anchor: %d returns of the Get methods found", n))
+	}
+}
+
+// domCommitReached: StateCache.commit gives up (returns before publishing the
+// block) only when the block is already committed, and it does store the
+// block's entries and publish its link.
+func domCommitReached(r *engine.Run, rule string) {
+	f := r.Fn(rule, pkgSC, "StateCache", "commit")
+	if f == nil {
+		return
+	}
+	var publish, already *ssa.Call
+	stores := 0
+	engine.Instrs(f, func(in ssa.Instruction) {
+		c, ok := in.(*ssa.Call)
+		if !ok {
+			return
+		}
+		if staticCalleeIs(c, pkgSC, "StateCache", "commitRound") {
+			publish = c
+		}
+		if lruCallOnField(c, "Get", "hashCache") && already == nil {
+			already = c
+		}
+		if extCalleeIs(c, "hashicorp/golang-lru", "Cache", "Add") && !lruCallOnField(c, "Add", "cache") && !lruCallOnField(c, "Add", "hashCache") {
+			stores++
+		}
+	})
+	r.Check(publish != nil && stores > 0, rule, fn(f)+"|stores and publishes", r.P.Pos(f.Pos()), "commit adds the block's entries to the versions maps and calls commitRound",
+		fmt.Sprintf("commit no longer stores the block's entries (%d stores found) or no longer publishes the block's link: committed writes are not what descendant lookups return", stores))
+	if g, _ := r.P.Func(pkgSC, "StateCache", "commitRound"); g != nil {
+		links := 0
+		engine.Instrs(g, func(in ssa.Instruction) {
+			if c, ok := in.(*ssa.Call); ok && lruCallOnField(c, "Add", "hashCache") {
+				links++
+			}
+		})
+		r.Check(links > 0, rule, fn(g)+"|link stored", r.P.Pos(g.Pos()), "commitRound stores the block's link", "commitRound no longer stores the block -> previous block link: lookups at descendants cannot walk to this block")
+	}
+	if publish == nil || already == nil {
+		if already == nil {
+			r.Anchor(rule, fmt.Errorf("unresolved anchor: already-committed test of %s", fn(f)))
+		}
+		return
+	}
+	var okv ssa.Value
+	for _, ref := range engine.Referrers(already) {
+		if ex, isEx := ref.(*ssa.Extract); isEx && ex.Index == 1 {
+			okv = ex
+		}
+	}
+	o := ord{}
+	for _, ret := range engine.Returns(f) {
+		if ret.Block().Comment == "recover" || engine.InstrDominates(publish, ret) {
+			continue
+		}
+		good := false
+		if okv != nil {
+			if atoms, full := engine.AtomsOn(f, ret.Block()); full {
+				if t, had := atoms[engine.ValKey(okv)]; had && t {
+					good = true
+				}
+			}
+		}
+		r.Check(good, rule, o.next(fn(f)+"|early return"), r.P.Pos(ret.Pos()), "returns without publishing only when the block's link is already present",
+			"commit can return without storing and publishing the block although the block was not committed before")
+	}
+}
+
+// domFound: what an lru lookup returned is interpreted (type-asserted) only
+// where the lookup's found flag tested true: a missing entry is a nil interface,
+// and asserting it panics in the middle of a lookup.
+func domFound(r *engine.Run, rule string) {
+	n := 0
+	for _, f := range funcsOfPkg(r, pkgSC) {
+		if len(f.Blocks) == 0 {
+			continue
+		}
+		o := ord{}
+		engine.Instrs(f, func(in ssa.Instruction) {
+			c, ok := in.(*ssa.Call)
+			if !ok || !(extCalleeIs(c, "hashicorp/golang-lru", "Cache", "Get") || extCalleeIs(c, "hashicorp/golang-lru", "Cache", "Peek")) {
+				return
+			}
+			var val, found ssa.Value
+			for _, ref := range engine.Referrers(c) {
+				if ex, isEx := ref.(*ssa.Extract); isEx {
+					if ex.Index == 0 {
+						val = ex
+					} else {
+						found = ex
+					}
+				}
+			}
+			if val == nil {
+				return
+			}
+			for _, ref := range engine.Referrers(val) {
+				ta, isTA := ref.(*ssa.TypeAssert)
+				if !isTA || ta.CommaOk {
+					continue
+				}
+				n++
+				good := false
+				if found != nil {
+					if atoms, full := engine.AtomsOn(f, ta.Block()); full {
+						if t, had := atoms[engine.ValKey(found)]; had && t {
+							good = true
+						}
+					}
+				}
+				r.Check(good, rule, o.next(fn(f)+"|assert lookup result"), r.P.Pos(ta.Pos()), "asserted only where the lookup's found flag tested true",
+					"the result of a cache-map lookup is type-asserted on a path where the lookup may have missed: the nil result panics inside the lookup/commit")
+			}
+		})
+	}
+	if n < 4 {
+		r.Anchor(rule, fmt.Errorf("unresolved anchor: %d asserted lookup results found", n))
 	}
 }
